@@ -306,3 +306,69 @@ package framework
 //@     decreases len(ssn.PreemptScenarioValidatorFns) - rangeindex
 //@   ensures result == preemptScenarioOK(ssn, scenario)
 //@ end
+
+// ---- session_plugins.go: comparators (C16) -----------------------------------------------------
+// C16: "nor - at equal priority - a younger one while leaving an older one unplaced": whenever every
+// registered comparator is neutral on (l, r) - which the priority and elastic comparators are for two
+// workloads of equal priority and equal gang state (their own contracts) - the older workload is
+// ordered first, ties broken by UID, so the order is strict and total.
+//@ define pgOf(x interface{}) *podgroup_info.PodGroupInfo = unbox(x, "*podgroup_info.PodGroupInfo")
+//@ define isPG(x interface{}) bool = typeis(x, "*podgroup_info.PodGroupInfo") && pgOf(x) != nil
+//@ define fifoLessJob(a *podgroup_info.PodGroupInfo, b *podgroup_info.PodGroupInfo) bool = a.CreationTimestamp < b.CreationTimestamp || (a.CreationTimestamp == b.CreationTimestamp && a.UID < b.UID)
+//@ define jobCmp(ssn *Session, i int, l interface{}, r interface{}) int = common_info.cmpVerdict(ssn.JobOrderFns[i], l, r)
+//@ define jobNeutral(ssn *Session, l interface{}, r interface{}) bool = forall i int :: 0 <= i && i < len(ssn.JobOrderFns) ==> jobCmp(ssn, i, l, r) == 0
+//@ define jobDecider(ssn *Session, k int, l interface{}, r interface{}) bool = 0 <= k && k < len(ssn.JobOrderFns) && jobCmp(ssn, k, l, r) != 0 && (forall i int :: 0 <= i && i < k ==> jobCmp(ssn, i, l, r) == 0)
+
+//@ func (*Session).JobOrderFn
+//@   props C16
+//@   requires ssn != nil && isPG(l) && isPG(r)
+//@   requires forall i int :: 0 <= i && i < len(ssn.JobOrderFns) ==> ssn.JobOrderFns[i] != nil
+//@   pure
+//@   loop 1
+//@     invariant 0 - 1 <= rangeindex && rangeindex < len(ssn.JobOrderFns)
+//@     invariant forall i int :: 0 <= i && i <= rangeindex ==> jobCmp(ssn, i, l, r) == 0
+//@     decreases len(ssn.JobOrderFns) - rangeindex
+//@   ensures [fifoFallback] jobNeutral(ssn, l, r) ==> result == fifoLessJob(pgOf(l), pgOf(r))
+//@   ensures [firstPluginDecides] forall k int :: jobDecider(ssn, k, l, r) ==> result == (jobCmp(ssn, k, l, r) < 0)
+//@   lemma [irreflexive] jobNeutral(ssn, l, r) && pgOf(l) == pgOf(r) ==> !result
+//@   lemma [asymmetric] jobNeutral(ssn, l, r) && result ==> !fifoLessJob(pgOf(r), pgOf(l))
+//@   lemma [totalOnDistinctKeys] jobNeutral(ssn, l, r) && (pgOf(l).CreationTimestamp != pgOf(r).CreationTimestamp || pgOf(l).UID != pgOf(r).UID) ==> result || fifoLessJob(pgOf(r), pgOf(l))
+//@   lemma [transitive] forall c *podgroup_info.PodGroupInfo :: c != nil && jobNeutral(ssn, l, r) && result && fifoLessJob(pgOf(r), c) ==> fifoLessJob(pgOf(l), c)
+//@ end
+
+//@ define piOf(x interface{}) *pod_info.PodInfo = unbox(x, "*pod_info.PodInfo")
+//@ define isPI(x interface{}) bool = typeis(x, "*pod_info.PodInfo") && piOf(x) != nil && piOf(x).Pod != nil
+//@ define fifoLessTask(a *pod_info.PodInfo, b *pod_info.PodInfo) bool = a.Pod.CreationTimestamp < b.Pod.CreationTimestamp || (a.Pod.CreationTimestamp == b.Pod.CreationTimestamp && a.UID < b.UID)
+//@ define taskCmp(ssn *Session, i int, l interface{}, r interface{}) int = common_info.cmpVerdict(ssn.TaskOrderFns[i], l, r)
+//@ define taskNeutral(ssn *Session, l interface{}, r interface{}) bool = forall i int :: 0 <= i && i < len(ssn.TaskOrderFns) ==> taskCmp(ssn, i, l, r) == 0
+//@ define taskDecider(ssn *Session, k int, l interface{}, r interface{}) bool = 0 <= k && k < len(ssn.TaskOrderFns) && taskCmp(ssn, k, l, r) != 0 && (forall i int :: 0 <= i && i < k ==> taskCmp(ssn, i, l, r) == 0)
+
+//@ func (*Session).TaskOrderFn
+//@   props C16
+//@   requires ssn != nil && isPI(l) && isPI(r)
+//@   requires forall i int :: 0 <= i && i < len(ssn.TaskOrderFns) ==> ssn.TaskOrderFns[i] != nil
+//@   pure
+//@   loop 1
+//@     invariant 0 - 1 <= rangeindex && rangeindex < len(ssn.TaskOrderFns)
+//@     invariant forall i int :: 0 <= i && i <= rangeindex ==> taskCmp(ssn, i, l, r) == 0
+//@     decreases len(ssn.TaskOrderFns) - rangeindex
+//@   ensures [fifoFallback] taskNeutral(ssn, l, r) ==> result == fifoLessTask(piOf(l), piOf(r))
+//@   ensures [firstPluginDecides] forall k int :: taskDecider(ssn, k, l, r) ==> result == (taskCmp(ssn, k, l, r) < 0)
+//@   lemma [irreflexive] taskNeutral(ssn, l, r) && piOf(l) == piOf(r) ==> !result
+//@   lemma [asymmetric] taskNeutral(ssn, l, r) && result ==> !fifoLessTask(piOf(r), piOf(l))
+//@ end
+
+// Queues: the plugin comparators also look at the victim slices, so no abstract verdict is available;
+// the fallback is pinned down for a session without queue comparators.
+//@ define fifoLessQueue(a *queue_info.QueueInfo, b *queue_info.QueueInfo) bool = a.CreationTimestamp < b.CreationTimestamp || (a.CreationTimestamp == b.CreationTimestamp && a.UID < b.UID)
+//@ func (*Session).QueueOrderFn
+//@   props C16
+//@   requires ssn != nil && ssn.ClusterInfo != nil && lQ != nil && rQ != nil
+//@   requires forall i int :: 0 <= i && i < len(ssn.QueueOrderFns) ==> ssn.QueueOrderFns[i] != nil
+//@   pure
+//@   loop 1
+//@     invariant 0 - 1 <= rangeindex && rangeindex < len(ssn.QueueOrderFns)
+//@     decreases len(ssn.QueueOrderFns) - rangeindex
+//@   ensures [fifoFallback] len(ssn.QueueOrderFns) == 0 ==> result == fifoLessQueue(lQ, rQ)
+//@   lemma [asymmetric] len(ssn.QueueOrderFns) == 0 && result ==> !fifoLessQueue(rQ, lQ)
+//@ end
